@@ -1,0 +1,35 @@
+//go:build verif
+
+package snapshots
+
+import "slices"
+
+// VerifPending describes the pending (in-progress) job checkpoint.
+type VerifPending struct {
+	ID         uint64
+	WaitingFor []string // operator and source runner IDs that have not acknowledged yet
+}
+
+// VerifPendingSnapshot returns the pending checkpoint or nil: the harness uses
+// it as the stuck-state witness ("waits for a node that is gone").
+func (s *Store) VerifPendingSnapshot() *VerifPending {
+	s.stateMu.Lock()
+	defer s.stateMu.Unlock()
+	p := s.state.pendingSnapshot
+	if p == nil {
+		return nil
+	}
+	out := &VerifPending{ID: p.id}
+	for id, done := range p.operatorIDsComplete {
+		if !done {
+			out.WaitingFor = append(out.WaitingFor, id)
+		}
+	}
+	for id, done := range p.sourceRunnerIDsComplete {
+		if !done {
+			out.WaitingFor = append(out.WaitingFor, id)
+		}
+	}
+	slices.Sort(out.WaitingFor)
+	return out
+}
